@@ -85,6 +85,32 @@ Clauses(fam, a) ==
          [same_shape |-> a.left = a.right]
     [] fam = "khatrirao" ->     \* a: cols (column count of each matrix)
          [common_cols |-> \A j, k \in 1..Len(a.cols) : a.cols[j] = a.cols[k]]
+    [] fam = "k_arrange_perm" -> \* a: R (number of components), perm
+         [length   |-> Len(a.perm) = a.R,
+          in_range |-> \A k \in 1..Len(a.perm) : a.perm[k] \in 0..(a.R - 1),
+          distinct |-> IsInj(a.perm)]
+    [] fam = "k_update" ->      \* a: rows (per mode), R, modes (factor modes to replace, in order), datalen
+         [modes_in_range |-> \A k \in 1..Len(a.modes) : a.modes[k] \in 0..(Len(a.rows) - 1),
+          data_length    |-> (\A k \in 1..Len(a.modes) : a.modes[k] \in 0..(Len(a.rows) - 1)) =>
+                               \* (surplus data only raise a warning: documented)
+                               a.datalen >= SumSeq([k \in 1..Len(a.modes) |-> a.rows[a.modes[k] + 1] * a.R])]
+    [] fam = "sp_reshape_modes" -> \* a: shape, old_modes, target (new sizes replacing the listed modes)
+         [modes_in_range |-> \A k \in 1..Len(a.old_modes) : a.old_modes[k] \in 0..(N_(a) - 1),
+          modes_distinct |-> IsInj(a.old_modes),
+          count          |-> (\A k \in 1..Len(a.old_modes) : a.old_modes[k] \in 0..(N_(a) - 1)) =>
+                               Prod(a.target) = Prod(Sub(a.shape, a.old_modes))]
+    [] fam = "ctor_tenmat" ->   \* a: shape (of the tensor), rdims, cdims, mshape (shape of the data matrix)
+         [in_range  |-> \A k \in 1..Len(a.rdims \o a.cdims) : InRange((a.rdims \o a.cdims)[k], N_(a)),
+          partition |-> (\A k \in 1..Len(a.rdims \o a.cdims) : InRange((a.rdims \o a.cdims)[k], N_(a))) =>
+                          (IsInj(a.rdims \o a.cdims) /\ Len(a.rdims \o a.cdims) = N_(a)),
+          matrix_shape |-> ((\A k \in 1..Len(a.rdims \o a.cdims) : InRange((a.rdims \o a.cdims)[k], N_(a)))
+                            /\ IsInj(a.rdims \o a.cdims) /\ Len(a.rdims \o a.cdims) = N_(a)) =>
+                             a.mshape = <<Prod(Sub(a.shape, a.rdims)), Prod(Sub(a.shape, a.cdims))>>]
+    [] fam = "ctor_sptenmat" -> \* a: shape, rdims, cdims (a partition), maxrow, maxcol (largest 0-based row / column subscript)
+         [rows_inside |-> a.maxrow < Prod(Sub(a.shape, a.rdims)),
+          cols_inside |-> a.maxcol < Prod(Sub(a.shape, a.cdims))]
+    [] fam = "ctor_sptensor_neg" -> \* a: shape, minsub (smallest subscript of any entry)
+         [nonneg |-> a.minsub >= 0]
     [] fam = "als_options" ->   \* a: shape, rank, dimorder, initrows, initcols  (cp_als / tucker_als style)
          [rank_positive |-> a.rank >= 1,
           dimorder_perm |-> IsPerm0(a.dimorder, N_(a)),
